@@ -57,7 +57,7 @@ ObsInit == [
     termOrd  |-> -1,           \* number of requests initiated before that
     running  |-> FALSE,        \* async_run called and not ended since
     disc     |-> [op |-> 0, t |-> 0, rc |-> 0, dig |-> "", len |-> 0, maxpkt |-> 0,
-                  c |-> 0, wrote |-> FALSE, doneT |-> -1],
+                  c |-> 0, wrote |-> FALSE, on |-> {}, doneT |-> -1],
     deliv    |-> << >>,        \* messages handed to async_receive, in order
     bmsgs    |-> EmptyFn,      \* broker message token -> [k (first transmission), qos]
     q2done   |-> {},           \* broker QoS 2 messages whose exchange completed (PUBCOMP received)
@@ -213,11 +213,11 @@ StepCall(o, e) ==
         o1 == [o EXCEPT !.ops = Upd(o.ops, e.op, rec), !.nops = o.nops + 1]
     IN IF e.kind = "run" THEN [o1 EXCEPT !.running = TRUE, !.terminal = FALSE, !.termOrd = -1,
                                          !.try = [host |-> -1, t |-> 0, failT |-> -1, ok |-> FALSE, n |-> o.try.n],
-                                         !.disc = [@ EXCEPT !.op = 0, !.doneT = -1]]
+                                         !.disc = [@ EXCEPT !.op = 0, !.doneT = -1, !.on = {}]]
        ELSE IF e.kind = "disc"
          THEN [o1 EXCEPT !.terminal = TRUE, !.termOrd = IF o.terminal THEN o.termOrd ELSE o1.nops,
                          !.disc = [op |-> e.op, t |-> e.t, rc |-> e.qos, dig |-> e.dig, len |-> e.len,
-                                   maxpkt |-> e.h_maxpkt, c |-> 0, wrote |-> FALSE, doneT |-> -1]]
+                                   maxpkt |-> e.h_maxpkt, c |-> 0, wrote |-> FALSE, on |-> {}, doneT |-> -1]]
        ELSE o1
 
 StepDone(o, e) ==
@@ -256,8 +256,9 @@ StepPkt(o, e) ==   \* c_pkt: one packet handed to the transport by the client
                                         THEN Append(cr.ords, [ord |-> o.ops[Min(ids)].ord, qos |-> e.qos])
                                         ELSE cr.ords]
        IN [o2 EXCEPT !.conn[c] = cr1,
-                     !.disc = IF e.type = "DISCONNECT" /\ o.disc.op # 0 /\ ~o.disc.wrote
-                                THEN [o.disc EXCEPT !.wrote = TRUE, !.c = c] ELSE o.disc]
+                     \* (the DISCONNECT of async_disconnect is re-sent on a new connection when its write failed)
+                     !.disc = IF e.type = "DISCONNECT" /\ o.disc.op # 0 /\ o.disc.doneT < 0
+                                THEN [o.disc EXCEPT !.wrote = TRUE, !.c = c, !.on = @ \cup {c}] ELSE o.disc]
 
 StepBRecv(o, e) ==
     LET o1 == [o EXCEPT !.recv = Append(o.recv, e)]
@@ -429,7 +430,7 @@ PktClauses(o, e) ==
     \cup (IF known /\ cr.npkt > 0 /\ e.type = "CONNECT" THEN {"C10_a_SecondConnect"} ELSE {})
     \cup (IF known /\ cr.npkt > 0 /\ cr.cack # 1 /\ e.type \notin {"CONNECT", "AUTH"} THEN {"C10_b_PacketBeforeConnack"} ELSE {})
     \* C09: nothing follows the DISCONNECT of async_disconnect on its connection
-    \cup (IF known /\ o.disc.op # 0 /\ o.disc.wrote /\ o.disc.c = c THEN {"C09_b_PacketAfterDisconnect"} ELSE {})
+    \cup (IF known /\ o.disc.op # 0 /\ c \in o.disc.on THEN {"C09_b_PacketAfterDisconnect"} ELSE {})
     \cup (IF o.disc.op # 0 /\ o.disc.doneT >= 0 /\ ~o.running THEN {"C09_e_WriteAfterDisconnectCompleted"} ELSE {})
     \* C08: identifiers
     \cup (IF e.type \in {"PUBLISH", "SUBSCRIBE", "UNSUBSCRIBE"} /\ (e.type # "PUBLISH" \/ e.qos > 0) /\ e.pid = 0
@@ -490,9 +491,9 @@ BRecvClauses(o, e) ==
     \cup (IF known /\ e.type = "SUBSCRIBE" /\ e.shared = 1 /\ cr.sha = 0 THEN {"C15_d_SharedNotAvailable"} ELSE {})
     \cup (IF known /\ e.type = "SUBSCRIBE" /\ e.subid = 1 /\ cr.sia = 0 THEN {"C15_d_SubscriptionIdNotAvailable"} ELSE {})
     \* C09: the DISCONNECT of async_disconnect carries what was asked
-    \cup (IF e.type = "DISCONNECT" /\ o.disc.op # 0 /\ o.disc.doneT < 0 /\ o.disc.c = c /\ e.rc # o.disc.rc
+    \cup (IF e.type = "DISCONNECT" /\ o.disc.op # 0 /\ o.disc.doneT < 0 /\ c \in o.disc.on /\ e.rc # o.disc.rc
             THEN {"C09_a_DisconnectReasonDiffers"} ELSE {})
-    \cup (IF e.type = "DISCONNECT" /\ o.disc.op # 0 /\ o.disc.doneT < 0 /\ o.disc.c = c /\ e.rc = o.disc.rc /\ e.dig # o.disc.dig
+    \cup (IF e.type = "DISCONNECT" /\ o.disc.op # 0 /\ o.disc.doneT < 0 /\ c \in o.disc.on /\ e.rc = o.disc.rc /\ e.dig # o.disc.dig
              /\ ~(known /\ cr.maxpkt > 0 /\ o.disc.len > cr.maxpkt)
             THEN {"C09_a_DisconnectPropertiesDiffer"} ELSE {})
     \* C04: acknowledgements of the broker's publishes
@@ -505,7 +506,7 @@ BRecvClauses(o, e) ==
 WriteClauses(o, e) ==
     LET c == e.c IN
     \* C09: once async_disconnect was called and the write in progress ended, the next write is the DISCONNECT alone
-       (IF o.disc.op # 0 /\ o.disc.doneT < 0 /\ ~o.disc.wrote /\ c \in DOMAIN o.conn /\ o.conn[c].cack = 1
+       (IF o.disc.op # 0 /\ o.disc.doneT < 0 /\ c \notin o.disc.on /\ c \in DOMAIN o.conn /\ o.conn[c].cack = 1
              /\ e.t >= o.disc.t /\ e.pk # <<"DISCONNECT">>
              /\ ~\E w \in DOMAIN o.wr : o.wr[w].res = 0     \* (a write may have been in progress at the call)
             THEN {"C09_a_DisconnectNotNextOrNotAlone"} ELSE {})
